@@ -21,4 +21,11 @@ PROPS = {
                     "engine-level loop program relies on exclusive gateways and variable writes behaving as in C04/C08"],
         "assumes": ["N >= 1 incoming flows"],
     },
+    "C04": {
+        "cmd": "c04",
+        "corr": ["Corr.C04corr"],
+        "trusted": ["condition evaluation (expr / xsel) is an oracle giving each flow's truth value; the gateway's inbox is modelled as the list of messages in processing order (any interleaving)",
+                    "the reschedule goroutine is modelled as the same report re-appearing later in the message list"],
+        "assumes": ["flow ids of concurrently live tokens are distinct (C20)"],
+    },
 }
